@@ -36,6 +36,10 @@ pub fn gen_fine_config(rng: &mut Rng, nested: bool, panic_heavy: bool) -> Config
     let mut pool = PLAIN_REF.to_vec();
     rng.shuffle(&mut pool);
     pool.truncate(pool_size);
+    if panic_heavy && rng.chance(1, 5) {
+        // an argument type whose Debug rendering is long and not ASCII
+        pool.push(M::D0);
+    }
     co.pool = pool;
     let mut cfg = gen_config(rng, &co);
     if !nested {
@@ -401,7 +405,11 @@ pub fn check_c10(scn: &Scenario) -> Checked {
     let flat = scn.config.flatten();
     if let Some(s) = &final_snap {
         let ordered_calls = res.log.calls.iter().filter(|c| flat.mentioned(c.m) && flat.ordered(c.m)).count() as u32;
-        if s.ordered != ordered_calls {
+        // ... as far as the sequence goes: the statement gives the i-th call the i-th slot; where
+        // the position rests once every slot is used up is not part of it
+        let slots = crate::model::slot_ranges(&flat).iter().map(|r| r.2).max().unwrap_or(0);
+        let conserved = if ordered_calls <= slots { s.ordered == ordered_calls } else { s.ordered >= slots };
+        if !conserved {
             violations.push(v(
                 "C10",
                 "ordered-position-conservation",
